@@ -280,6 +280,45 @@ func runC01(c *fw.Ctx) {
 		})
 	}
 
+	// ---------- selections between neighbouring doubles inside a reconvergent graph: r = ElMax(a, b) * w + ElMin(a, b) + MaxAlong(c) ----------
+	for i := 0; i < c.Pick(60, 1200); i++ {
+		c.Case(func(k *fw.K) {
+			r := k.Rng
+			shape := RandShape(r, 1, 2, 3)
+			a := Shuffled(r, Unique(r, shape, 0.2, 2))
+			b := a.Clone()
+			for i := range b.Data {
+				d := math.Inf(1)
+				if r.Intn(2) == 0 {
+					d = math.Inf(-1)
+				}
+				b.Data[i] = math.Nextafter(a.Data[i], d)
+			}
+			w := Shuffled(r, Unique(r, shape, 0.5, 2))
+			p := ref.Prog{
+				{Op: "leaf", Shape: shape, Data: a.Data, Tracked: true},
+				{Op: "leaf", Shape: shape, Data: b.Data, Tracked: r.Intn(2) == 0},
+				{Op: "leaf", Shape: shape, Data: w.Data},
+				{Op: "elmax", In: []int{0, 1}},
+				{Op: "mul", In: []int{3, 2}},
+				{Op: "elmin", In: []int{1, 0}},
+				{Op: "add", In: []int{4, 5}},
+				{Op: "concat", In: []int{0, 1}, Dim: 0},
+				{Op: []string{"maxalong", "minalong"}[r.Intn(2)], In: []int{7}, Dim: 0},
+			}
+			vals, err := p.Eval()
+			if err != nil {
+				k.Failf("harness: %v", err)
+				return
+			}
+			k.Case = c01case{Family: "selections between neighbouring doubles", Prog: p}
+			k.Key("neighbouring/%s/%d", shapeKey(shape), i%8)
+			k.Count("graphs_with_selections_between_neighbouring_doubles", 1)
+			root := []int{6, 8}[r.Intn(2)]
+			c01OneRoot(k, p, vals, root)
+		})
+	}
+
 	// ---------- endurance: 70 000 back-propagations in ONE process (counters, generation marks, pooled state) ----------
 	c.Case(func(k *fw.K) {
 		n := c.Pick(70000, 200000)
